@@ -190,8 +190,8 @@ fn fold3(f: AggregateFunction, a: Value, b: Value, c: Value) -> Value {
 //@ property: C11
 //@ tier: thorough
 //@ optional: yes
-//@ cap_s: 2400
-//@ mem_gb: 24
+//@ cap_s: 1500
+//@ mem_gb: 16
 //@ unwindset: ^std::ptr::drop_glue::<:1; ^std::ptr::drop_in_place::<:1; as std::clone::Clone>::clone$:1; drop_slow$:1
 //@ encodes: AggregateState::{new,update,finalize} for Count, CountNonNull, Min, Max, First, Last, Sum (aggregate.rs, via hook H13), aggregate.rs compare_values
 //@ symbolic: the number of rows fed to count(*) (0..3); three Int64 values (all i64) fed to the other aggregates
@@ -228,8 +228,8 @@ fn c11_aggregates_int_vs_definitions() {
 //@ property: C12
 //@ tier: thorough
 //@ optional: yes
-//@ cap_s: 2400
-//@ mem_gb: 24
+//@ cap_s: 1500
+//@ mem_gb: 16
 //@ unwindset: ^std::ptr::drop_glue::<:1; ^std::ptr::drop_in_place::<:1; as std::clone::Clone>::clone$:1; drop_slow$:1
 //@ encodes: AggregateState::{new,update,finalize} for Sum, Min, Max on Int64 values (via hook H13)
 //@ symbolic: three Int64 values (all i64)
@@ -251,7 +251,7 @@ fn c12_aggregates_int_never_panic() {
 //@ tier: thorough
 //@ optional: yes
 //@ cap_s: 1500
-//@ mem_gb: 28
+//@ mem_gb: 16
 //@ unwindset: ^std::ptr::drop_glue::<:1; ^std::ptr::drop_in_place::<:1; as std::clone::Clone>::clone$:1; drop_slow$:1
 //@ encodes: AggregateState::{new,update,finalize} for Avg and Sum on Int64 / Float64 mixes (via hook H13), value_to_f64
 //@ symbolic: two Int64 values (all i64) and three Float64 values (all bit patterns)
